@@ -452,6 +452,14 @@ func init() {
 	comboCheck(comboDef{id: "C17", level: "model_checking",
 		sched: func(q bool) *SchedPlan {
 			specs := append(coreSchedSpecs(q), waitSchedSpecs(q)...)
+			// keys that live for one request only (expiry 0: granted and freed at once): one thread's key is being
+			// reclaimed while the other thread's key is being created in the same shard
+			cfg1 := hapi.Config{FastKeys: 1, Concurrent: 1}
+			specs = append(specs,
+				&EngSpec{Name: "short-lived-keys-in-one-shard", Cfg: cfg1, Fine: true,
+					Threads: [][]Step{{C(L(1, 1, 1, 0, 0, 0, 0)), C(L(2, 3, 1, 0, 0, 0, 0))}, {C(L(3, 2, 2, 0, 0, 0, 0)), C(L(4, 4, 2, 0, 0, 0, 0))}}},
+				&EngSpec{Name: "short-lived-keys-four-slots", Cfg: hapi.Config{FastKeys: 4, Concurrent: 1}, Fine: true,
+					Threads: [][]Step{{C(L(1, 1, 1, 0, 0, 0, 0)), C(L(2, 3, 1, 0, 0, 0, 0))}, {C(L(3, 2, 2, 0, 0, 0, 0)), C(L(4, 4, 2, 0, 0, 0, 0))}}})
 			for _, s := range specs {
 				s.FinalFor = 14 * sec
 				s.Collect = !q
